@@ -233,6 +233,11 @@ class SrcInfo:
                     tail = '/'.join(segs[k:])
                     if rel in ('src/%s.rs' % tail, 'src/%s/mod.rs' % tail) or rel.endswith('/%s.rs' % tail) or rel.endswith('/%s/mod.rs' % tail):
                         return c
+        if not segs and '::' not in re.sub(r'<.*', '', path):
+            # the MIR dump prints module paths for everything but items of the crate root
+            for c in cands:
+                if c[0] == 'src/lib.rs':
+                    return c
         raise KeyError('ambiguous type %s: %s' % (path, [c[0] for c in cands]))
 
     def struct_fields(self, path):
@@ -250,7 +255,10 @@ class SrcInfo:
     def enum_variants_for(self, path, variant):
         """like enum_variants, but an ambiguous type name is resolved by the variant it must contain"""
         try:
-            return self.enum_variants(path)
+            ev = self.enum_variants(path)
+            if ev is None or any(v[0] == variant for v in ev):
+                return ev
+            raise KeyError('variant %s not in the enum picked for %s' % (variant, path))
         except KeyError:
             cands = [c for c in self.enums.get(self.last_seg(path), []) if any(v[0] == variant for v in c[1])]
             if len(cands) == 1:
